@@ -79,10 +79,13 @@ def run(ctx):
         asr = [bi for bi in vo.normal_blocks() if vo.term(bi)['k'] == 'call' and call_matches(vo.term(bi), ['re:^core::panicking::'])]
         ctx.ob('3c entry-size-asserted-at-open', 'K1-must-pass', vo.path, 'ValueTable::open asserts MIN_ENTRY_SIZE <= entry_size <= MAX_ENTRY_SIZE (2 assertions)', len(asr) >= 2, '%d panic sites' % len(asr))
     # 4. in-place replacement only in the same size class
-    we = ctx.body('column::Column::write_existing_value_plan')
-    if we:
-        rp = we.call_sites('table::ValueTable::write_replace_plan')
-        ctx.ob('4a replace-anchor', 'anchor', we.path, 'one in-place replace site', len(rp) == 1, str(rp))
+    we0 = ctx.body('column::Column::write_existing_value_plan')
+    if we0:
+        # (the Set arm may live in a helper of the planner: the site is looked for in its family)
+        hosts = [(b_, b_.call_sites('table::ValueTable::write_replace_plan')) for b_ in lib.family(F, we0.path) if b_.path.startswith('column::') and '{closure' not in b_.path]
+        hosts = [(b_, x) for b_, x in hosts if x]
+        ctx.ob('4a replace-anchor', 'anchor', we0.path, 'one in-place replace site', len(hosts) == 1 and len(hosts[0][1]) == 1, str([(b_.path, x) for b_, x in hosts]))
+        we, rp = hosts[0] if hosts else (we0, [])
         for s in rp:
             ok = False
             for (sw, yes, no) in we.control_deps(s):
